@@ -275,6 +275,8 @@ theorem dg_of_same {p : PS} (h : DgInv p) {e' : EP} {g' : Ghost} {ba' : List Msg
     rw [hr, s.dgramq, hba]
     exact h.ba
 
+theorem DgInv.setLinked {p : PS} (h : DgInv p) (lk : List Nat) : DgInv { p with linked := lk } := ⟨h.ab, h.ba⟩
+
 theorem dgOf_cons_nondg (m : Msg) (l : List Msg) (h : ∀ a b c d, m ≠ .frame (.datagram a b c d)) : dgOf (m :: l) = dgOf l := by
   cases m with
   | frame f => cases f <;> first | rfl | exact absurd rfl (h _ _ _ _)
@@ -305,7 +307,9 @@ theorem stepL_dg {p p' : PS} (a : Act) (h : DgInv p) (hs : stepL p a = some p') 
     split at hs
     · cases hs
     · cases hs
-      refine same (DgSame.appRead _ _ _) ?_ ?_ <;> (cases (appRead p.a hd n).2 <;> cases p.a.handles[hd]? <;> rfl)
+      refine same (DgSame.appRead _ _ _) ?_ ?_ <;>
+        (cases (appRead p.a hd n).2 <;> cases p.a.handles[hd]? <;>
+          first | rfl | (simp only [Ghost.noteEof]; split <;> first | rfl | (split <;> rfl)))
   | shutdown hd =>
     simp only [stepL] at hs
     split at hs
@@ -365,7 +369,8 @@ theorem stepL_dg {p p' : PS} (a : Act) (h : DgInv p) (hs : stepL p a = some p') 
     split at hs
     · cases hs
     · split at hs
-      · rename_i f rest hba
+      · cases hs
+      · rename_i f rest _ hba
         split at hs
         · rename_i e evs hpf
           cases hs
@@ -393,7 +398,7 @@ theorem stepL_dg {p p' : PS} (a : Act) (h : DgInv p) (hs : stepL p a = some p') 
                 · exact (List.Sublist.append (List.Sublist.refl _) (List.sublist_cons_self _ _)).trans hb
           · have hnd : ∀ a b c d, f ≠ .datagram a b c d := fun a b c d hh => hdg ⟨a, b, c, d, hh⟩
             subst he
-            refine dg_of_same (ba' := rest) h (DgSame.processFrame p.a f false hnd) rfl rfl ?_
+            refine DgInv.setLinked (p := { p with a := (processFrame p.a f false).1, ba := rest }) (dg_of_same (ba' := rest) h (DgSame.processFrame p.a f false hnd) rfl rfl ?_) _
             unfold pathBA
             rw [hba, List.cons_append, dgOf_cons_nondg _ _ (by intro a b c d hh; injection hh with hh; exact hnd a b c d hh)]
         · cases hs
